@@ -13,7 +13,7 @@ use simcore::{Alg, Rng};
 
 use crate::recipe::tlv;
 
-static RSA_POOL: [&[u8]; 5] = [
+static RSA_POOL: [&[u8]; 6] = [
     include_bytes!("../../../fixtures/rsa/rsa2048a.pk8.der"),
     include_bytes!("../../../fixtures/rsa/rsa2048b.pk8.der"),
     include_bytes!("../../../fixtures/rsa/rsa3072a.pk8.der"),
@@ -21,6 +21,8 @@ static RSA_POOL: [&[u8]; 5] = [
     // 8192 bits: above what ring loads as a private key; drawn on aws-lc-rs builds only and
     // never for traces that several back ends must share
     include_bytes!("../../../fixtures/rsa/rsa8192a.pk8.der"),
+    // public exponent 2^32 + 1: the widest both back ends document as acceptable (33 bits)
+    include_bytes!("../../../fixtures/rsa/rsa2048e33.pk8.der"),
 ];
 
 /// How a key is provisioned; part of the explicit trace.
@@ -35,7 +37,7 @@ impl KeySpec {
     /// Like `draw`, independent of the generating build (for traces shared between back ends).
     pub fn draw_common(r: &mut Rng, alg: Alg) -> KeySpec {
         let material = if alg.is_rsa() {
-            simcore::sha256::hex(&[*r.pick(&[0u8, 0, 0, 1, 1, 1, 2, 3])])
+            simcore::sha256::hex(&[*r.pick(&[0u8, 0, 0, 1, 1, 5, 2, 3])])
         } else {
             simcore::sha256::hex(&r.bytes(32))
         };
@@ -45,7 +47,7 @@ impl KeySpec {
     pub fn draw(r: &mut Rng, alg: Alg) -> KeySpec {
         let material = if alg.is_rsa() {
             // bias to the small keys, the large ones are slow
-            let mut i = *r.pick(&[0u8, 0, 0, 1, 1, 1, 2, 3]);
+            let mut i = *r.pick(&[0u8, 0, 0, 1, 1, 5, 2, 3]);
             if cfg!(feature = "aws_lc_rs") && r.chance(1, 24) {
                 i = 4;
             }
